@@ -83,6 +83,31 @@ def first_mismatch(impl, model):
     return None
 
 
+# classes whose outputs are in general not exactly representable in binary even for dyadic inputs (thirds, tenths,
+# irrational frequencies) ...
+INEXACT_SOURCES = {"div", "pow", "interpolate", "scaleLinLin", "scaleLinExp", "normalise", "midiNoteToFrequency", "tri", "saw",
+                   "randomExponential", "white", "brown"}
+# ... and classes that are discontinuous in a numeric operand: an inexact float a hair beside the exact rational of the
+# model may legitimately fall on the other side (8 % -1.3333333333333333 vs 8 % (-4/3) = 0)
+DISCONTINUOUS = {"mod", "floorDiv", "eq", "ne", "lt", "gt", "le", "ge", "int", "round", "wrap", "indexOf", "noRepeats", "changed",
+                 "skipIf", "arrayIndex", "euclidean", "stutter", "subsequence", "creep", "loop", "pad", "padToMultiple", "lshift",
+                 "rshift", "counter", "range", "and", "switchOne", "flipFlop", "degree", "permut", "series", "impulse"}
+
+
+def inexact_at_discontinuity(script):
+    """does some definition of the script feed an inexact-float source into a discontinuous class?"""
+    def has_inexact(e):
+        return e[0] == "node" and (e[1] in INEXACT_SOURCES or any(has_inexact(k) for k in e[4]))
+
+    def walk(e):
+        if e[0] != "node":
+            return False
+        if e[1] in DISCONTINUOUS and any(has_inexact(k) for k in e[4]):
+            return True
+        return any(walk(k) for k in e[4])
+    return any(step[0] == "def" and walk(step[2]) for step in script)
+
+
 def script_text(script):
     return pat_impl.model_lines(script)
 
